@@ -295,7 +295,7 @@ func run(c Case) (res evid.Result) {
 
 // openNorm removes the difference between `[string]: _` and `...` (a documented -s rewrite).
 func openNorm(s string) string {
-	for _, r := range []string{", [_]: NIL", "[_]: NIL", ", [string]: NIL", "[string]: NIL", ", [string]: _:_", "[string]: _:_", "E "} {
+	for _, r := range []string{", [_]: NIL", "[_]: NIL", ", [_]: _:_", "[_]: _:_", ", [string]: NIL", "[string]: NIL", ", [string]: _:_", "[string]: _:_", ", [string]: <deep>", "[string]: <deep>", ", [_]: <deep>", "[_]: <deep>", "E "} {
 		s = strings.ReplaceAll(s, r, "")
 	}
 	return s
